@@ -64,8 +64,18 @@ type Check struct {
 
 var Registry = map[string]*Check{}
 
-// Only restricts a run to instances whose ID contains the substring (debugging).
+// Only restricts a run to instances whose ID contains the substring (debugging);
+// several substrings are separated by "||".
 var Only string
+
+func containsAny(s string, subs []string) bool {
+	for _, x := range subs {
+		if strings.Contains(s, x) {
+			return true
+		}
+	}
+	return false
+}
 
 func register(c *Check) { Registry[c.ID] = c }
 
@@ -414,7 +424,7 @@ func Execute(id, tier string, seed int64, verbose bool) int {
 	if Only != "" {
 		var sel []*vm.Instance
 		for _, in := range fam.Instances {
-			if strings.Contains(in.ID, Only) {
+			if containsAny(in.ID, strings.Split(Only, "||")) {
 				sel = append(sel, in)
 			}
 		}
